@@ -115,6 +115,23 @@ def finish(prop, tier, seed, t0, verdict, events_path, gen_stats, level="model_c
                        "sql": [e.get("sql") for e in trace],
                        "failing_event": {k2: v for k2, v in (ev or {}).items() if k2 != "_history"}}, fh, indent=1)
         violations.append((b, rp))
+    if violations:
+        def fmt(v):
+            if isinstance(v, list):
+                return "[" + ",".join(fmt(x) for x in v) + "]"
+            if isinstance(v, dict) and "t" in v:
+                return {"n": "NULL", "s": repr(v.get("s")), "b": "T" if v.get("n") else "F", "x": "x:" + str(v.get("s"))}.get(
+                    v["t"], str(v.get("n")) if v.get("d", 1) == 1 else "%s/%s" % (v.get("n"), v.get("d")))
+            if isinstance(v, dict):
+                return "{" + ",".join("%s:%s" % (k, fmt(x)) for k, x in v.items()) + "}"
+            return str(v)
+        with open(os.path.join(vc.RUN, "triage_%s.txt" % prop), "w") as fh:
+            for b, rp in violations:
+                r = json.load(open(rp))
+                ev0 = r.get("failing_event") or {}
+                fh.write("%s [%s/%s exp=%s obs=%s cfg=%s] %s\n    data=%s\n    want=%s\n    got =%s %s\n" % (
+                    b["sc"], b["a"], b["what"], b.get("exp"), b.get("obs"), b.get("cfg"), ev0.get("sql"),
+                    fmt((ev0.get("st") or {}).get("T")), fmt(b.get("want")), fmt(ev0.get("rows")), ev0.get("msg", "")))
     for kid, h in known_hits.items():
         print("KNOWN-FINDING: property=%s %s: %s (%d events)" % (prop, kid, h["k"].get("what", ""), h["n"]))
     seen = set()
